@@ -107,7 +107,13 @@ impl Check for C13 {
     fn check<T: Fam>(&self, v: &T, acc: &mut Acc) {
         let label = format!("{:?}", v);
         let Ok(text) = toml::to_string(v) else {
-            acc.bump("not-serializable-skipped");
+            // the text route refuses this value: the table route must refuse it too, not hand out a partial tree
+            acc.nontrivial(label.as_bytes());
+            match guarded(|| toml::Table::try_from(v).map(|t| crate::real::canon_toml_table(&t, true))) {
+                Ok(Err(_)) => acc.bump("refused by to_string and by Table::try_from"),
+                Ok(Ok(tree)) => acc.viol("U-serde", format!("{}: {}", T::NAME, label), None, format!("toml::to_string refuses this value but toml::Table::try_from succeeds with {}", tree)),
+                Err(p) => acc.viol("U-serde", format!("{}: {}", T::NAME, label), None, format!("panic: {}", p)),
+            }
             return;
         };
         acc.nontrivial(label.as_bytes());
